@@ -605,7 +605,14 @@ static int record(uint64_t seed, int nexec, int len)
     for (size_t i = 1; i <= nk; ++i)
       keys.push_back(json::array({VK[r.below(6)], (long)i}));
     long vcount = 0;
+    // valid values come from a small pool (6 per execution) half of the time, so that a key is often Set
+    // again to EXACTLY the value it already has; the other half is fresh
+    std::vector<json> vpool;
+    for (long i = 1; i <= 6; ++i)
+      vpool.push_back(json::array({VV[r.below(5)], 5000 + i}));
     auto fresh_val = [&](bool valid) {
+      if (valid && r.coin(50))
+        return vpool[r.below(vpool.size())];
       ++vcount;
       return json::array({valid ? VV[r.below(5)] : IV[r.below(7)], 1000 + vcount});
     };
@@ -666,6 +673,17 @@ static int record(uint64_t seed, int nexec, int len)
         bool badk = r.coin(5), badv = r.coin(5);
         json k = badk ? json::array({IK[r.below(8)], 900 + s}) : some_key(45);
         json v = fresh_val(!badv);
+        if (!badk && !badv && r.coin(25))
+        {
+          // re-Set with the value the key has right now (same bytes), wherever the member stands
+          std::string curv;
+          if (do_get(objs[o], cz.key(k), curv))
+          {
+            auto it = cz.val_abs.find(curv);
+            if (it != cz.val_abs.end())
+              v = it->second;
+          }
+        }
         TsPtr nw;
         {
           Buf kb(cz.key(k)), vb(cz.val(v));
